@@ -29,7 +29,7 @@
 use crate::BoxError;
 use bytes::{Buf, Bytes};
 use http_body::Frame;
-use http_body_util::{BodyExt, Limited};
+use http_body_util::{BodyExt, LengthLimitError, Limited};
 use std::{
 	pin::Pin,
 	task::{Context, Poll},
@@ -148,11 +148,21 @@ where
 	// Number of leading whitespace bytes skipped so far (the body may start with empty or whitespace-only chunks).
 	let mut skipped = 0usize;
 
+	// A body that can't be a JSON-RPC call is read to the end nevertheless (without keeping it): whether it's
+	// too large must not depend on how it's split into chunks or on the presence of the `Content-Length` header.
+	let mut malformed = false;
+
 	while let Some(frame_or_err) = limited_body.frame().await {
-		let frame = frame_or_err.map_err(HttpError::Stream)?;
+		let frame = frame_or_err.map_err(|err| {
+			if err.is::<LengthLimitError>() { HttpError::TooLarge } else { HttpError::Stream(err) }
+		})?;
 		let Some(data) = frame.data_ref() else {
 			continue;
 		};
+
+		if malformed {
+			continue;
+		}
 
 		// Until the first non-whitespace byte of the body has been seen (it must be among the first 128 bytes),
 		// trim the whitespaces to determine whether it's valid JSON-RPC call.
@@ -174,7 +184,10 @@ where
 					skipped += data.chunk().len();
 					continue;
 				}
-				_ => return Err(HttpError::Malformed),
+				_ => {
+					malformed = true;
+					continue;
+				}
 			};
 
 			// ignore whitespace as these doesn't matter just makes the JSON decoding slower.
